@@ -1,4 +1,5 @@
 import GlareModel.Core.Sem
+import GlareModel.Core.Directory
 /-! # C07 — Grouping, aggregates and duplicate elimination are exact per group
 
 Aggregate states as in `functions/aggregate/builtin/{minmax,count,sum}.rs`: a value plus a
@@ -127,5 +128,69 @@ theorem max_is_maximum (xs : List Int) (m : Int) (h : xs.foldl (mmUpdate gt) non
 theorem count_split (xs ys : List Int) : (xs ++ ys).length = xs.length + ys.length := List.length_append
 
 example : mmMerge gt (some (-7)) none = some (-7) := rfl   -- an invalid partial state never turns -7 into 0
+
+/-! ## The hash table directory never fills up (`hash_table/directory.rs`)
+
+Model: `Core/Directory.lean`, tied to the real `Directory` (needs_resize, resize, probing) by
+`gvh directory` through a cfg hook. -/
+section DirectoryCapacity
+open GlareModel.Directory
+
+theorem nextPow2From_ge (p n fuel : Nat) (hp : 0 < p) (hf : n ≤ p + fuel) : n ≤ nextPow2From p n fuel := by
+  induction fuel generalizing p with
+  | zero => simpa [nextPow2From] using hf
+  | succ f ih =>
+    simp only [nextPow2From]
+    split
+    · assumption
+    · exact ih (2 * p) (by omega) (by omega)
+
+theorem nextPow2_ge (n : Nat) : n ≤ nextPow2 n := by
+  unfold nextPow2
+  exact nextPow2From_ge 1 n n (by omega) (by omega)
+
+/-- **The directory never fills up completely**: after every batch there is at least one empty
+slot, for every sequence of batch sizes and numbers of new groups - so a linear probe always ends at
+the row's group or at an empty slot and "Hash table completely full" is unreachable. -/
+theorem batch_not_full (d : Dir) (n newGroups : Nat) (h : d.occupied < d.cap) :
+    (batch d n newGroups).occupied < (batch d n newGroups).cap := by
+  unfold batch
+  simp only
+  split
+  · have := nextPow2_ge (max (d.cap * 2) (n + d.cap))
+    have h1 : n + d.cap ≤ max (d.cap * 2) (n + d.cap) := Nat.le_max_right _ _
+    have h2 : min newGroups n ≤ n := Nat.min_le_right _ _
+    omega
+  · rename_i hr
+    simp [needsResize] at hr
+    have h2 : min newGroups n ≤ n := Nat.min_le_right _ _
+    by_cases hn : n = 0
+    · subst hn; simp; exact h
+    · omega
+
+theorem batches_not_full (bs : List (Nat × Nat)) (d : Dir) (h : d.occupied < d.cap) :
+    (bs.foldl (fun d b => batch d b.1 b.2) d).occupied < (bs.foldl (fun d b => batch d b.1 b.2) d).cap := by
+  induction bs generalizing d with
+  | nil => exact h
+  | cons b bs ih => exact ih _ (batch_not_full d b.1 b.2 h)
+
+/-- From the initial directory: for every history of batches. -/
+theorem directory_never_full (bs : List (Nat × Nat)) :
+    (bs.foldl (fun d b => batch d b.1 b.2) init).occupied < (bs.foldl (fun d b => batch d b.1 b.2) init).cap :=
+  batches_not_full bs init (by decide)
+
+/-- The capacity only grows (a resize never discards slots). -/
+theorem batch_cap_mono (d : Dir) (n newGroups : Nat) : d.cap ≤ (batch d n newGroups).cap := by
+  unfold batch
+  simp only
+  split
+  · have := nextPow2_ge (max (d.cap * 2) (n + d.cap))
+    have h1 : d.cap * 2 ≤ max (d.cap * 2) (n + d.cap) := Nat.le_max_left _ _
+    omega
+  · exact Nat.le_refl _
+
+example : (batch init 2048 2048).cap = 4096 ∧ (batch init 300 300).cap = 512 ∧ (batch (batch init 300 300) 100 100).cap = 1024 := by decide
+
+end DirectoryCapacity
 
 end GlareModel.Props.C07
